@@ -514,7 +514,7 @@ def findURLIndex (b : Bytes) : Int :=
   | c :: rest =>
     if urlTbl c % 8 != 7 then -1 else
     let i := 1 + (rest.takeWhile (fun c => urlTbl c / 4 % 2 == 1)).length
-    if i == 1 || i > 33 || i ≥ b.length then -1
+    if i == 1 || i > 32 || i ≥ b.length then -1
     else if b[i]? != some 58 then -1
     else ((i + 1 + ((b.drop (i + 1)).takeWhile (fun c => urlTbl c % 2 == 1)).length : Nat) : Int)
 
